@@ -19,6 +19,8 @@ MUT = ('Create', 'Mkdir', 'MkdirAll', 'OpenFile', 'Remove', 'RemoveAll', 'Rename
 OBS = ('Stat', 'Open', 'HRead', 'HReadAt', 'HReaddir', 'HReaddirnames', 'HStat')
 
 def nontrivial(cid, lines, r):
+    if lines[0].startswith('pathfn'):
+        return '2e' in lines[0].split(' ')[2] or '2f2f' in lines[0].split(' ')[2]
     mutated = False
     for i, l in enumerate(lines[1:-1]):
         t = l.split(' ')
@@ -33,4 +35,5 @@ def nontrivial(cid, lines, r):
     return False
 
 COQ_HEADER = FS_COQ_HEADER
-coq_case = fs_coq_case
+def coq_case(cid, lines, r):
+    return fs_coq_case(cid, lines, r) if lines[0].startswith('case') else None
